@@ -117,3 +117,227 @@ Theorem C11_source_wiring : forall cfg parser,
      else const = 0) /\
     hd_error l = Some (ConnExt.EAutoFFC true).
 Proof. exact wiring_facts. Qed.
+
+(* ---- source tie: the configuration mapping, as the Go sources are now ----
+   "The settings read from config.toml are the ones that shape the files."  coq/translated/{ConfRecorder,ConfThrottle,
+   ConfMotion,Config}.v are recorder/recorderconfig.go, throttle/config.go, motion/motionconfig.go and
+   cmd/thermal-recorder/config.go regenerated on every run (which sections are read in which order, which defaults are
+   taken before unmarshalling, every field-by-field copy, every validation, every early return); model/ConfExt.v is the
+   go-config library as far as this code uses it - the file as a function section -> optional keys, the library's
+   defaults as PARAMETERS (every theorem is for every [clib]), Unmarshal = override with the keys present, a script of
+   the files successive goconfig.New calls find, a fault script for sections that fail to decode.  proofs/TieConf.v
+   (axiom-free) proves, for every world (0 < w_next: tokens are positive), directory and camera model: *)
+From TR Require Import translated.ConfMotion translated.ConfRecorder translated.ConfThrottle translated.Config.
+From TR Require Import model.ConfExt proofs.TieConf.
+
+(* ParseConfig, whole: which way out is taken ([parse_outcome]: goconfig.New fails; the first of the eight Unmarshal
+   calls - thermal-recorder, location, windows, thermal-throttler, location, thermal-recorder, lepton, device - that
+   fails; window.New refuses; max-secs < min-secs; success), the error returned with the ZERO Config on every error,
+   the sections read up to that point and no other call of the library, and on success every field *)
+Theorem C11_source_config_parse : forall (L : clib) (dir : Z) (w : ConfExt.cworld),
+  0 < w_next w ->
+  cpost (src_parse L dir w)
+    (fun (r : Config * Z) (w' : ConfExt.cworld) =>
+     exists evs : list ConfExt.cev,
+       extends w w' evs /\ bad_calls evs = nil /\ w_reads w' = tl (w_reads w) /\
+       (exists tok err : Z, hd_error evs = Some (ENew dir tok err)) /\
+       match parse_outcome L (w_reads w) (w_faults w) with
+       | PNewErr e => r = (ZERO_CONFIG, e) /\ e <> 0 /\ sections_read evs = nil
+       | PDecodeErr k e => r = (ZERO_CONFIG, e) /\ e <> 0 /\ sections_read evs = firstn (S k) parse_order
+       | PWindowErr e => r = (ZERO_CONFIG, e) /\ e <> 0 /\ sections_read evs = recorder_order
+       | PMaxLtMin =>
+           fst r = ZERO_CONFIG /\ snd r <> 0 /\ sections_read evs = recorder_order /\
+           (exists t : Z, w_heap w' (snd r) = OErr t /\ w_heap w' t = OStr MAX_LT_MIN)
+       | POk =>
+           snd r = 0 /\ sections_read evs = parse_order /\
+           w_faults w' = Nat.iter 8 (@tl Z) (w_faults w) /\
+           Config_Motion (fst r) = 0 /\
+           tokens_in (fst r) (w_next w) (w_next w') /\
+           match w_reads w with
+           | inr f :: _ => config_vals L dir f (fst r) w'
+           | _ => False
+           end
+       end).
+Proof. exact tie_ParseConfig. Qed.
+
+(* success, unfolded: the file decodes, the window is accepted, min-secs <= max-secs (equal is accepted): nil, and
+   [config_vals]; ParseConfig does NOT fill Config.Motion (it stays the zero struct until LoadMotionConfig) *)
+Theorem C11_source_config_values : forall (L : clib) (dir : Z) (f : cfile) (rest : list (Z + cfile)) (w : ConfExt.cworld),
+  0 < w_next w ->
+  w_reads w = inr f :: rest ->
+  (forall k : nat, (k < 8)%nat -> fault_at k (w_faults w) = 0) ->
+  window_err L f = 0 ->
+  rec_vals L f "MinSecs" <= rec_vals L f "MaxSecs" ->
+  cpost (src_parse L dir w)
+    (fun (r : Config * Z) (w' : ConfExt.cworld) =>
+     snd r = 0 /\
+     config_vals L dir f (fst r) w' /\
+     Config_Motion (fst r) = 0 /\
+     tokens_in (fst r) (w_next w) (w_next w') /\
+     w_next w <= w_next w' /\
+     (forall t : Z, t < w_next w -> w_heap w' t = w_heap w t) /\
+     w_reads w' = rest /\
+     w_faults w' = Nat.iter 8 (@tl Z) (w_faults w) /\
+     (exists evs : list ConfExt.cev,
+        w_log w' = w_log w ++ evs /\ sections_read evs = parse_order /\ bad_calls evs = nil /\
+        (exists tok err : Z, hd_error evs = Some (ENew dir tok err)))).
+Proof. exact tie_ParseConfig_ok. Qed.
+
+(* [config_vals], field by field: each value is the file's key when the section and the key are present
+   ([C11_source_config_key]) and otherwise the library's default - of thermal-recorder for min/max/preview secs,
+   constant-recorder, output dir, min-disk-space; of windows for start/stop; of thermal-throttler for activate,
+   bucket-size, min-refill (all its keys); of lepton for the frame input - and ZERO for device id / name and for the
+   location written into the file headers, while the location handed to window.New defaults to the library's window
+   location: a device without [location] gets its recording window computed for the default place and records
+   latitude = longitude = 0 in its files *)
+Theorem C11_source_config_fields : forall (L : clib) (dir : Z) (f : cfile) (c : Config) (w' : ConfExt.cworld),
+  config_vals L dir f c w' <->
+  Config_ConfigDir c = dir /\
+  Config_DeviceID c = override zero_fields (f SDevice) "ID" /\
+  Config_DeviceName c = override zero_fields (f SDevice) "Name" /\
+  Config_FrameInput c = override (d_lepton L) (f SLepton) "FrameOutput" /\
+  Config_OutputDir c = override (d_recorder L) (f SRecorder) "OutputDir" /\
+  Config_MinDiskSpace c = wrap_u 64 (override (d_recorder L) (f SRecorder) "MinDiskSpaceMB") /\
+  (RecorderConfig_MinSecs (Config_Recorder c) = override (d_recorder L) (f SRecorder) "MinSecs" /\
+   RecorderConfig_MaxSecs (Config_Recorder c) = override (d_recorder L) (f SRecorder) "MaxSecs" /\
+   RecorderConfig_PreviewSecs (Config_Recorder c) = override (d_recorder L) (f SRecorder) "PreviewSecs" /\
+   RecorderConfig_ConstantRecorder (Config_Recorder c) = z_to_bool (override (d_recorder L) (f SRecorder) "ConstantRecorder") /\
+   w_heap w' (RecorderConfig_Window (Config_Recorder c)) =
+     OWindow (override (d_windows L) (f SWindows) "StartRecording") (override (d_windows L) (f SWindows) "StopRecording")
+             (override (d_winloc L) (f SLocation) "Latitude") (override (d_winloc L) (f SLocation) "Longitude")) /\
+  w_heap w' (Config_Throttler c) = OSect SThrottler (override (d_throttler L) (f SThrottler)) /\
+  w_heap w' (Config_Location c) = OSect SLocation (override zero_fields (f SLocation)) /\
+  Config_Verbose c = false.
+Proof. exact config_vals_fields. Qed.
+
+Theorem C11_source_config_key : forall (d : fields) (s : option fkeys) (k : string),
+  override d s k = match s with
+                   | Some p => match p k with Some v => v | None => d k end
+                   | None => d k
+                   end.
+Proof. exact override_eq. Qed.
+
+(* min-disk-space-mb: a uint64 in the library and in Config; the wrap above is the identity on such a value *)
+Theorem C11_source_config_min_disk_space : forall v : Z, 0 <= v < 2 ^ 64 -> wrap_u 64 v = v.
+Proof. exact wrap_u64_id. Qed.
+
+(* the error cases: goconfig.New fails / the (k+1)-th Unmarshal is the first to fail / window.New refuses /
+   max-secs < min-secs - the error, NO config (the zero value), and exactly the sections before were read *)
+Theorem C11_source_config_new_error : forall (L : clib) (dir e : Z) (rest : list (Z + cfile)) (w : ConfExt.cworld),
+  0 < w_next w ->
+  w_reads w = inl e :: rest ->
+  cpost (src_parse L dir w)
+    (fun (r : Config * Z) (w' : ConfExt.cworld) =>
+     r = (ZERO_CONFIG, new_err e) /\ new_err e <> 0 /\
+     (exists evs : list ConfExt.cev, w_log w' = w_log w ++ evs /\ sections_read evs = nil /\ bad_calls evs = nil)).
+Proof. exact tie_ParseConfig_new_error. Qed.
+
+Theorem C11_source_config_first_fault : forall (L : clib) (dir : Z) (f : cfile) (rest : list (Z + cfile)) (w : ConfExt.cworld) (k : nat) (e : Z),
+  0 < w_next w ->
+  w_reads w = inr f :: rest ->
+  (k < 8)%nat ->
+  (forall j : nat, (j < k)%nat -> fault_at j (w_faults w) = 0) ->
+  fault_at k (w_faults w) = e ->
+  e <> 0 ->
+  ((3 <= k)%nat -> window_err L f = 0 /\ rec_vals L f "MinSecs" <= rec_vals L f "MaxSecs") ->
+  cpost (src_parse L dir w)
+    (fun (r : Config * Z) (w' : ConfExt.cworld) =>
+     r = (ZERO_CONFIG, e) /\
+     (exists evs : list ConfExt.cev,
+        w_log w' = w_log w ++ evs /\ sections_read evs = firstn (S k) parse_order /\ bad_calls evs = nil)).
+Proof. exact tie_ParseConfig_first_fault. Qed.
+
+Theorem C11_source_config_window_error : forall (L : clib) (dir : Z) (f : cfile) (rest : list (Z + cfile)) (w : ConfExt.cworld),
+  0 < w_next w ->
+  w_reads w = inr f :: rest ->
+  (forall k : nat, (k < 3)%nat -> fault_at k (w_faults w) = 0) ->
+  window_err L f <> 0 ->
+  cpost (src_parse L dir w)
+    (fun (r : Config * Z) (w' : ConfExt.cworld) =>
+     r = (ZERO_CONFIG, window_err L f) /\
+     (exists evs : list ConfExt.cev,
+        w_log w' = w_log w ++ evs /\ sections_read evs = recorder_order /\ bad_calls evs = nil)).
+Proof. exact tie_ParseConfig_window_error. Qed.
+
+Theorem C11_source_config_max_lt_min : forall (L : clib) (dir : Z) (f : cfile) (rest : list (Z + cfile)) (w : ConfExt.cworld),
+  0 < w_next w ->
+  w_reads w = inr f :: rest ->
+  (forall k : nat, (k < 3)%nat -> fault_at k (w_faults w) = 0) ->
+  window_err L f = 0 ->
+  rec_vals L f "MaxSecs" < rec_vals L f "MinSecs" ->
+  cpost (src_parse L dir w)
+    (fun (r : Config * Z) (w' : ConfExt.cworld) =>
+     fst r = ZERO_CONFIG /\ snd r <> 0 /\
+     (exists t : Z, w_heap w' (snd r) = OErr t /\ w_heap w' t = OStr MAX_LT_MIN) /\
+     (exists evs : list ConfExt.cev,
+        w_log w' = w_log w ++ evs /\ sections_read evs = recorder_order /\ bad_calls evs = nil)).
+Proof. exact tie_ParseConfig_max_lt_min. Qed.
+
+(* RecorderConfig.validate, alone: the only validation of the recorder settings *)
+Theorem C11_source_config_validate : forall (L : clib) (rc : RecorderConfig) (w : ConfExt.cworld),
+  cpost (RecorderConfig_validate (ConfExt.cext L) rc w)
+    (fun (r : RecorderConfig * Z) (w' : ConfExt.cworld) =>
+     fst r = rc /\
+     (if RecorderConfig_MaxSecs rc <? RecorderConfig_MinSecs rc
+      then
+       snd r = w_next w + 1 /\
+       w_heap w' (snd r) = OErr (w_next w) /\
+       w_heap w' (w_next w) = OStr MAX_LT_MIN /\
+       w_next w' = w_next w + 2 /\
+       (forall t : Z, t < w_next w -> w_heap w' t = w_heap w t) /\
+       w_reads w' = w_reads w /\ w_faults w' = w_faults w /\ w_log w' = w_log w
+      else snd r = 0 /\ w' = w)).
+Proof. exact tie_validate. Qed.
+
+(* throttle.NewConfig: ALL keys of thermal-throttler (activate, bucket-size, min-refill) over the library's defaults *)
+Theorem C11_source_config_throttler : forall (L : clib) (conf : Z) (f : cfile) (w : ConfExt.cworld),
+  w_heap w conf = OConf f ->
+  conf < w_next w ->
+  cpost (ConfThrottle_fn_NewConfig (ConfExt.cext L) conf w)
+    (fun (r : Z * Z) (w' : ConfExt.cworld) =>
+     let e := fault_at 0 (w_faults w) in
+     extends w w' (EUnmarshal conf SThrottler (w_next w) e :: nil) /\
+     w_reads w' = w_reads w /\
+     w_faults w' = tl (w_faults w) /\
+     w_next w' = w_next w + 1 /\
+     (if e =? 0 then r = (w_next w, 0) /\ w_heap w' (w_next w) = OSect SThrottler (throttler_vals L f) else r = (0, e))).
+Proof. exact tie_throttle_NewConfig. Qed.
+
+(* ParseConfig and then LoadMotionConfig model - what main and handleConn do before the first recorder is built:
+   every field at once.  f1 is the file as ParseConfig found it, f2 as LoadMotionConfig found it (a fresh
+   goconfig.New of the same directory) *)
+Theorem C11_source_config_parse_then_load : forall (L : clib) (dir model : Z) (f1 f2 : cfile) (rest : list (Z + cfile)) (w : ConfExt.cworld),
+  0 < w_next w ->
+  w_reads w = inr f1 :: inr f2 :: rest ->
+  (forall k : nat, (k < 9)%nat -> fault_at k (w_faults w) = 0) ->
+  window_err L f1 = 0 ->
+  rec_vals L f1 "MinSecs" <= rec_vals L f1 "MaxSecs" ->
+  cpost (bind (src_parse L dir) (fun r : Config * Z => src_load L (fst r) model) w)
+    (fun (r : Config * Z) (w' : ConfExt.cworld) =>
+     snd r = 0 /\ config_vals L dir f1 (fst r) w' /\
+     w_heap w' (Config_Motion (fst r)) = OSect SMotion (motion_vals L model f2)).
+Proof. exact tie_Parse_then_Load. Qed.
+
+(* FINDING (cmd/thermal-recorder/main.go:216 calls conf.LoadMotionConfig(headerInfo.Model()) and drops its result):
+   when that call fails - the file cannot be read or locked at that moment, or its thermal-motion section does not
+   decode, which ParseConfig never notices because it does not read that section - the Config the recorders and the
+   detector are then built from has the ZERO motion section (every threshold 0, trigger-frames 0, frame-compare-gap 0),
+   and the header of every file records it.  Reproduced on the real code: [thermal-motion] temp-thresh = "abc" *)
+Theorem C11_source_config_failed_load_leaves_zero : forall (L : clib) (dir model : Z) (f1 : cfile) (rest : list (Z + cfile)) (w : ConfExt.cworld),
+  0 < w_next w ->
+  w_reads w = inr f1 :: rest ->
+  (forall k : nat, (k < 8)%nat -> fault_at k (w_faults w) = 0) ->
+  window_err L f1 = 0 ->
+  rec_vals L f1 "MinSecs" <= rec_vals L f1 "MaxSecs" ->
+  load_outcome rest (Nat.iter 8 (@tl Z) (w_faults w)) <> POk ->
+  cpost (bind (src_parse L dir) (fun r : Config * Z => src_load L (fst r) model) w)
+    (fun (r : Config * Z) (_ : ConfExt.cworld) => snd r <> 0 /\ Config_Motion (fst r) = 0).
+Proof. exact tie_Parse_then_failed_Load. Qed.
+
+(* evaluated: the library's own numbers as parameters, a file with min-secs = 20, constant-recorder, temp-thresh = 3000,
+   device id / name, latitude *)
+Example C11_source_config_example :
+  observe (bind (src_parse EXL 7) (fun r => src_load EXL (fst r) MODEL35) (w_init [inr ex_file; inr ex_file] [])) =
+  Some (0, [42; 103; 102; 101; 200; 20; 600; 5; 1; -36; 1726362; -36; 0; 1; 600000000000; 3000; 200; 2],
+        [SRecorder; SLocation; SWindows; SThrottler; SLocation; SRecorder; SLepton; SDevice; SMotion], []).
+Proof. exact ex_parse_load. Qed.
